@@ -53,6 +53,12 @@ type Config struct {
 	// VM: every program is also compiled with the real compiler and its prototype tree is dumped into
 	// the case (VProg, case module VMX/VmCases.v), where the Coq model of the bytecode VM runs it.
 	VM bool
+	// CaseHeader / CaseType (optional) replace the shard header and the Coq case type: a property whose
+	// case module wraps vcase/case (coercions) and adds case kinds of its own for its Extra runs.
+	CaseHeader, CaseType string
+	// ReplayExtra (optional) replays the input object of a replay file that came from Extra; it
+	// returns false when the input is not one of its own.
+	ReplayExtra func(w *lib.Writer, replayFile []byte) bool
 }
 
 func run(cfg *Config, src string) *luagen.Outcome { return runWith(cfg, src, cfg.RunOptions) }
@@ -112,7 +118,7 @@ func runOne(cfg *Config, w *lib.Writer, seed uint64, idx int) {
 	c := lib.Case{
 		Input:      Input{Src: src, Seed: seed, Idx: idx, Mode: m.Name},
 		Observed:   out.Summary(),
-		Class:      m.Name,
+		Class:      caseClass(m.Name, prog),
 		Nontrivial: len(out.Trace) >= 5 || !out.Ok || m.Gen != nil,
 		Coq:        coq,
 	}
@@ -210,6 +216,9 @@ func Main(cfg *Config) {
 	if cfg.VM {
 		header, caseType = VMHeader, "vcase"
 	}
+	if cfg.CaseHeader != "" {
+		header, caseType = cfg.CaseHeader, cfg.CaseType
+	}
 	w, err := lib.NewWriter(a.Out, cfg.Prop, a.Tier, a.Seed, header, caseType, 20)
 	if err != nil {
 		panic(err)
@@ -222,7 +231,9 @@ func Main(cfg *Config) {
 			Input Input `json:"input"`
 		}
 		json.Unmarshal(b, &rp)
-		if rp.Input.Mode == "corpus" {
+		if cfg.ReplayExtra != nil && cfg.ReplayExtra(w, b) {
+			// replayed by the property's own Extra
+		} else if rp.Input.Mode == "corpus" {
 			save := cfg.Corpus
 			cfg.Corpus = []string{save[rp.Input.Idx]}
 			runCorpus(cfg, w)
@@ -247,4 +258,13 @@ func Main(cfg *Config) {
 	if err := w.Close(); err != nil {
 		panic(err)
 	}
+}
+
+// caseClass: the mode name; programs of mode `fragment` also say which proved fragment of the
+// fragment-compiler theorems they are in (fragclass.go)
+func caseClass(mode string, prog []luagen.Stmt) string {
+	if mode == "fragment" {
+		return mode + "/" + FragClass(prog)
+	}
+	return mode
 }
